@@ -3,11 +3,13 @@ import json
 
 import vlib
 
-CONSTS = dict(Services={'"A"', '"B"', '"C"'}, AllMsgs={'"Ping"', '"Pong"'}, FixD1=True)
+CONSTS = dict(Services={'"A"', '"B"', '"C"', '"A2"'}, AllMsgs={'"Ping"', '"Pong"'}, FixD1=True)
+STEPS = 4 + 3      # add <type> for four service types, remove <name> for three names
 ASSUMPTIONS = [
-    "three services: A and B register the same message type, C registers two message types; every (service, message) pair is probed, "
-    "including messages a service implements but does not register",
-    "all add/remove histories up to the length bound (6^L), each replayed on a fresh real Server on 127.0.0.1 with real clients",
+    "four service types: A and B register the same message type under their own names, C registers two message types, A2 registers the other "
+    "message type under A's name (service_name overridden); every (name, message) pair is probed, including messages a service implements but does "
+    "not register; remove_service(name) must remove whatever was added under the name",
+    "all add/remove histories up to the length bound (7^L), each replayed on a fresh real Server on 127.0.0.1 with real clients",
     "second run: the same histories extended with `hold s` (a request to s that stays inside its handler, sent on the SAME connection as the probes) "
     "and `release`; a held request must have been dispatched iff its service was registered when it arrived, and probes after a removal are refused "
     "although a request of the removed service is still running",
@@ -18,7 +20,7 @@ ASSUMPTIONS = [
 def _one(ctx, binary, maxlen, inflight, name):
     cfg = vlib.cfg_text(constants=dict(CONSTS, MaxLen=maxlen, EmitHist=True, WithInFlight=inflight),
                         invariants=["C13_ServedIffRegistered"], properties=["C13_HeldWasRegistered"],
-                        constraints=["Emit"]).replace("CONSTANTS\n", "CONSTANTS\n  Handles <- HandlesDef\n")
+                        constraints=["Emit"]).replace("CONSTANTS\n", "CONSTANTS\n  Handles <- HandlesDef\n  NameOf <- NameOfDef\n")
     out = ctx.path("replay_%s.json" % name)
     gen, text = vlib.tlc_pipe(ctx, "MC_RpcRegistry", cfg, "gen_" + name,
                               [binary, "replay-registry", "--input", "-", "--out", out, "--passthrough", ctx.path("gen_%s.tlc" % name)],
@@ -26,8 +28,8 @@ def _one(ctx, binary, maxlen, inflight, name):
     if gen["consumer_exit"] != 0 or gen["distinct"] is None or (gen["errors"] and not gen["violated"]):
         raise vlib.ToolError("generation/replay failed:\n" + text[-2000:])
     rep = vlib.load_json(out)
-    if not inflight and rep["evaluations"] != 6 ** maxlen:
-        raise vlib.ToolError("replayed %d histories, expected %d" % (rep["evaluations"], 6 ** maxlen))
+    if not inflight and rep["evaluations"] != STEPS ** maxlen:
+        raise vlib.ToolError("replayed %d histories, expected %d" % (rep["evaluations"], STEPS ** maxlen))
     if rep["evaluations"] == 0 or rep["served_probes"] == 0 or rep["refused_probes"] == 0:
         raise vlib.ToolError("vacuous: %s" % {k: rep[k] for k in ("evaluations", "served_probes", "refused_probes")})
     ctx.log("RpcRegistry (%s): %d states; %d histories replayed on a real server, %d probes, %d violations" % (
@@ -41,7 +43,7 @@ def _one(ctx, binary, maxlen, inflight, name):
 
 def run(ctx):
     binary = vlib.build_harness(ctx, "h-rpc")
-    maxlen = 4 if ctx.tier == "quick" else 6
+    maxlen = 4 if ctx.tier == "quick" else 5
     g1, r1 = _one(ctx, binary, maxlen, False, "seq")
     g2, r2 = _one(ctx, binary, 4 if ctx.tier == "quick" else 5, True, "inflight")
     cov = {"states": g1["distinct"] + g2["distinct"], "transitions": g1["generated"] + g2["generated"],
@@ -59,10 +61,14 @@ def replay(ctx, path):
     binary = vlib.build_harness(ctx, "h-rpc")
     # expectations are recomputed by the oracle rule: served iff added and not removed since
     reg, exps = set(), []
-    handles = {"A": ["Ping"], "B": ["Ping"], "C": ["Ping", "Pong"]}
+    handles = {"A": ["Ping"], "B": ["Ping"], "C": ["Ping", "Pong"], "A2": ["Pong"]}
+    name_of = {"A": "A", "B": "B", "C": "C", "A2": "A"}
     for kind, s in v["hist"]:
-        reg = reg | {s} if kind == "add" else reg - {s}
-        exps.append(sorted([s2, m] for s2 in reg for m in handles[s2]))
+        if kind == "add":
+            reg = reg | {s}
+        elif kind == "remove":
+            reg = {t for t in reg if name_of[t] != s}
+        exps.append(sorted([name_of[s2], m] for s2 in reg for m in handles[s2]))
     inp = ctx.path("one.txt")
     open(inp, "w").write('<<"HIST", %s>>\n' % json.dumps(json.dumps({"hist": v["hist"], "exps": exps})))
     out = ctx.path("replay_one.json")
